@@ -31,6 +31,11 @@ func NewWith(convert StructOptions, value interface{}) Value {
 
 	// see if value implements MarshalValue
 	if mar, ok := value.(Marshaler); ok {
+		// a nil pointer is null, like every other nil pointer: calling a
+		// MarshalValue with a value receiver through it would panic
+		if v := reflect.ValueOf(value); v.Kind() == reflect.Ptr && v.IsNil() {
+			return Null{}
+		}
 		return mar.MarshalValue()
 	}
 
